@@ -63,6 +63,10 @@ pub fn dispatch(args: &[String]) -> i32 {
         "reopen" => scen_reopen(&ctx),
         "sync" => scen_sync(&ctx),
         "iter" => scen_iter(&ctx),
+        "params" => scen_params(&ctx),
+        "multi" => scen_multi(&ctx),
+        "readonly" => scen_readonly(&ctx),
+        "determ" => scen_determ(&ctx),
         "child" => crate::exec::child_main(Path::new(ctx.args.get("dir").map(|s| s.as_str()).unwrap_or("."))),
         other => {
             eprintln!("unknown scenario {}", other);
@@ -668,4 +672,267 @@ pub fn scen_iter(ctx: &Ctx) -> i32 {
     }
     let b = run_batch(ctx, seqs, |_| RunOpts { cmp_end: false, ..Default::default() }, &["api", "oracle"], "iter");
     finish(ctx, "iter", &b, vec![])
+}
+
+/// C07: the same history under many parameter sets
+pub fn scen_params(ctx: &Ctx) -> i32 {
+    let mut rng = Rng::new(ctx.seed ^ fnv("params"));
+    let hist_n = sizes(ctx, 6, 40);
+    let mut bks: Vec<Bk> = vec![1u64, 2, 3, 4, 7, 8, 9, 64, 100, 128, 1000, 65536].into_iter().map(Bk::Size).collect();
+    bks.extend([1u64, 7, 8, 100, 65536].into_iter().map(Bk::Cap));
+    let bufsets: Vec<(Buf, Buf, Buf, bool)> = vec![
+        (Buf::Auto, Buf::Auto, Buf::Auto, true),
+        (Buf::Auto, Buf::Auto, Buf::Auto, false),
+        (Buf::Size(262_144), Buf::Size(262_144), Buf::Size(262_144), false),
+        (Buf::Size(1), Buf::Size(200_000), Buf::Size(100_000), false),
+        (Buf::PerMille(1000), Buf::PerMille(1000), Buf::PerMille(1000), false),
+        (Buf::Size(400_000), Buf::Auto, Buf::PerMille(1000), false),
+        (Buf::Auto, Buf::Size(262_144), Buf::Size(1_000_000), false),
+    ];
+    let mut seqs = Vec::new();
+    for i in 0..hist_n {
+        let mut r = rng.fork(i as u64);
+        let kt = *r.pick(&Kt::ALL);
+        let mut p = Profile::basic(kt, 8, if i % 3 == 0 { 260 } else { 110 });
+        // every third history carries > 3 chunks of data so that small buffers must evict
+        p.val_mode = if i % 3 == 0 { 3 } else { *r.pick(&[1u8, 2]) };
+        p.w = [45, 12, 12, 3, 3, 1, 3, 0, 1, 2, 0, 3, 1, 0];
+        p.pool = r.range(3, 30) as usize;
+        let base = gen_history(&mut r, &p);
+        // which configurations this history runs under
+        let mut cfgs: Vec<Params> = Vec::new();
+        for (j, bk) in bks.iter().enumerate() {
+            let bs = bufsets[(i + j) % bufsets.len()];
+            cfgs.push(Params { bk: *bk, key: bs.0, val: bs.1, htx: bs.2, default_bufs: bs.3 });
+        }
+        for bs in &bufsets {
+            cfgs.push(Params { bk: Bk::Size(16), key: bs.0, val: bs.1, htx: bs.2, default_bufs: bs.3 });
+        }
+        if i == 0 {
+            cfgs.push(Params { bk: Bk::Default, key: Buf::Auto, val: Buf::Auto, htx: Buf::Auto, default_bufs: true });
+            cfgs.push(Params { bk: Bk::Cap(0), key: Buf::Auto, val: Buf::Auto, htx: Buf::Auto, default_bufs: true });
+        }
+        for c in cfgs {
+            let mut s = base.clone();
+            s.params = c;
+            if c.bk == Bk::Default {
+                s.ops.retain(|o| !matches!(o, Op::Iter(_) | Op::Stats | Op::Reopen(_)));
+                s.ops.truncate(40);
+            }
+            seqs.push(s);
+        }
+    }
+    let b = run_batch(
+        ctx,
+        seqs,
+        |s| RunOpts { cmp_end: s.params.bk != Bk::Default, op_budget_ms: 60_000, ..Default::default() },
+        &["api", "oracle", "open", "bytes"],
+        "params",
+    );
+    // known finding: PerMille(p < 1000) on a file larger than one 128 KiB chunk never returns
+    let witness = permille_witness(ctx);
+    finish(ctx, "params", &b, vec![("known_finding_permille", esc(&witness))])
+}
+
+/// runs the D5/PerMille witness in a child process; "hang" = still fails, "ok" = no longer fails
+pub fn permille_witness(ctx: &Ctx) -> String {
+    let dir = fresh_dir(&ctx.scratch, "permille_witness");
+    let mut c = crate::exec::ChildExec::new(&dir);
+    std::env::set_var("ABYSS_CHILD_BUDGET_MS", "4000");
+    let p = Params { bk: Bk::Size(64), key: Buf::Auto, val: Buf::PerMille(1), htx: Buf::Auto, default_bufs: false };
+    let mut res = "ok".to_string();
+    let a = c.send(&Op::Map(0, Kt::U64, p).text());
+    if a != "ok" {
+        res = format!("open: {}", a);
+    } else {
+        for i in 0..400u64 {
+            let a = c.send(&Op::Put(B::Hex(i.to_le_bytes().to_vec()), B::Pat(1000, i)).text());
+            if a != "ok" {
+                res = if a == "child-dead" { "hang".into() } else { a };
+                break;
+            }
+        }
+    }
+    c.kill9();
+    std::env::remove_var("ABYSS_CHILD_BUDGET_MS");
+    let _ = std::fs::remove_dir_all(&dir);
+    res
+}
+
+/// C11: several maps of mixed key types in one directory, several handles per map
+pub fn scen_multi(ctx: &Ctx) -> i32 {
+    let count = sizes(ctx, 40, 400);
+    let mut rng = Rng::new(ctx.seed ^ fnv("multi"));
+    let mut seqs = Vec::new();
+    for i in 0..count {
+        let mut r = rng.fork(i as u64);
+        let nmaps = r.range(2, 5) as usize;
+        let kts: Vec<Kt> = (0..nmaps).map(|_| *r.pick(&Kt::ALL)).collect();
+        let ps: Vec<Params> = (0..nmaps).map(|_| Params::buckets(*r.pick(&[1u64, 4, 16, 64]))).collect();
+        let mut ops = Vec::new();
+        for m in 1..nmaps {
+            ops.push(Op::Map(m, kts[m], ps[m]));
+        }
+        let mut cur = nmaps - 1;
+        let pools: Vec<Vec<B>> = kts.iter().map(|kt| (0..8).map(|_| gen_key(&mut r, *kt, 0)).collect()).collect();
+        for _ in 0..(if ctx.tier_thorough { 200 } else { 90 }) {
+            if r.chance(1, 4) {
+                cur = r.below(nmaps as u64) as usize;
+                ops.push(Op::Map(cur, kts[cur], ps[cur]));
+            }
+            let k = r.pick(&pools[cur]).clone();
+            ops.push(match r.below(14) {
+                0..=5 => Op::Put(k, gen_val(&mut r, 1)),
+                6 | 7 => Op::Get(k),
+                8 | 9 => Op::Del(k),
+                10 => Op::Len,
+                11 => Op::Rehandle(r.below(3) as u8),
+                12 => Op::Iter(r.below(6) as u8),
+                _ => Op::Inc(k),
+            });
+        }
+        seqs.push(Seq { kt: kts[0], params: ps[0], ops });
+    }
+    let b = run_batch(ctx, seqs, |_| RunOpts { cmp_every: Some(0), cmp_end: true, ..Default::default() }, &["api", "oracle", "bytes", "open"], "multi");
+    finish(ctx, "multi", &b, vec![])
+}
+
+/// C15: read-only sessions leave the files byte-for-byte unchanged
+pub fn scen_readonly(ctx: &Ctx) -> i32 {
+    let count = sizes(ctx, 50, 500);
+    let mut rng = Rng::new(ctx.seed ^ fnv("readonly"));
+    let mut seqs = Vec::new();
+    for i in 0..count {
+        let mut r = rng.fork(i as u64);
+        let kt = *r.pick(&Kt::ALL);
+        let n = *r.pick(&[1u64, 2, 4, 8, 16, 64, 128, 256, 1024, 65536]);
+        let mut p = Profile::basic(kt, n, r.range(0, 60) as usize);
+        p.w = [50, 0, 15, 0, 0, 0, 0, 0, 0, 0, 0, 2, 0, 0];
+        p.val_mode = *r.pick(&[1u8, 2, 3]);
+        p.pool = r.range(1, 25) as usize;
+        let mut s = gen_history(&mut r, &p);
+        s.ops.push(Op::Cmp(1));
+        let mut q = Profile::basic(kt, n, r.range(10, 60) as usize);
+        q.w = [0, 25, 0, 10, 5, 3, 12, 6, 8, 1, 0, 0, 4, 2];
+        q.pool = p.pool + 3;
+        let ro = gen_history(&mut r, &q);
+        for o in ro.ops {
+            match o {
+                Op::Reopen(_) => s.ops.push(Op::Reopen(p.params)),
+                o => s.ops.push(o),
+            }
+            if r.chance(1, 10) {
+                let ks: Vec<B> = (0..r.below(6)).map(|_| gen_key(&mut r, kt, 0)).collect();
+                s.ops.push(Op::BulkGet(ks));
+            }
+        }
+        s.ops.push(Op::Cmp(1));
+        seqs.push(s);
+    }
+    let b = run_batch(ctx, seqs, |_| RunOpts { cmp_end: false, ro_check: true, ..Default::default() }, &["ro-bytes", "bytes", "api", "oracle", "trace"], "readonly");
+    finish(ctx, "readonly", &b, vec![])
+}
+
+/// C18: same updates, different process / directory / interleaved reads => identical files
+pub fn scen_determ(ctx: &Ctx) -> i32 {
+    let count = sizes(ctx, 40, 400);
+    let mut rng = Rng::new(ctx.seed ^ fnv("determ"));
+    let mut b = Batch::default();
+    let jobs: Vec<(Seq, Seq)> = (0..count)
+        .map(|i| {
+            let mut r = rng.fork(i as u64);
+            let kt = *r.pick(&Kt::ALL);
+            let n = *r.pick(&[1u64, 4, 16, 64, 256]);
+            let mut p = Profile::basic(kt, n, 90);
+            p.w = [50, 0, 18, 0, 0, 0, 0, 0, 1, 0, 0, 3, 0, 0];
+            p.val_mode = *r.pick(&[1u8, 2, 3]);
+            p.pool = r.range(2, 25) as usize;
+            let a = gen_history(&mut r, &p);
+            // second run: read-only calls spliced in
+            let mut ops = Vec::new();
+            for o in &a.ops {
+                ops.push(o.clone());
+                if r.chance(1, 3) {
+                    ops.push(match r.below(6) {
+                        0 => Op::Get(gen_key(&mut r, kt, 0)),
+                        1 => Op::Len,
+                        2 => Op::Iter(r.below(6) as u8),
+                        3 => Op::Stats,
+                        4 => Op::Inc(gen_key(&mut r, kt, 0)),
+                        _ => Op::ReadFill,
+                    });
+                }
+            }
+            let bseq = Seq { kt, params: a.params, ops };
+            (a, bseq)
+        })
+        .collect();
+    let results: Mutex<Vec<(usize, Option<String>, Vec<Diff>, Cov, usize)>> = Mutex::new(Vec::new());
+    let next = Mutex::new(0usize);
+    std::thread::scope(|sc| {
+        for t in 0..ctx.threads.min(jobs.len().max(1)) {
+            let jobs = &jobs;
+            let results = &results;
+            let next = &next;
+            sc.spawn(move || loop {
+                let i = {
+                    let mut g = next.lock().unwrap();
+                    let i = *g;
+                    *g += 1;
+                    i
+                };
+                if i >= jobs.len() {
+                    break;
+                }
+                let (a, bs) = &jobs[i];
+                let da = fresh_dir(&ctx.scratch, &format!("detA_{}_{}", t, i));
+                let db = fresh_dir(&ctx.scratch, &format!("detB_{}_{}", t, i));
+                let mut d1 = Driver::spawn(&ctx.driver).ok();
+                let o1 = run_seq(a, &da, &mut d1, &RunOpts { stop_first: true, ..Default::default() });
+                let mut d2 = Driver::spawn(&ctx.driver).ok();
+                let o2 = run_seq(bs, &db, &mut d2, &RunOpts { stop_first: true, child: true, ..Default::default() });
+                let mut differ = None;
+                for e in ["htx", "key", "val"] {
+                    let fa = std::fs::read(da.join(format!("m0.{}", e))).unwrap_or_default();
+                    let fb = std::fs::read(db.join(format!("m0.{}", e))).unwrap_or_default();
+                    if fa != fb {
+                        let pos = fa.iter().zip(fb.iter()).position(|(x, y)| x != y).unwrap_or(fa.len().min(fb.len()));
+                        differ = Some(format!("m0.{} differs between the two runs at byte {} (lengths {} / {})", e, pos, fa.len(), fb.len()));
+                        break;
+                    }
+                }
+                let mut diffs: Vec<Diff> = o1.diffs.clone();
+                diffs.extend(o2.diffs.clone());
+                let mut cov = o1.cov.clone();
+                cov.merge(&o2.cov);
+                let _ = std::fs::remove_dir_all(&da);
+                let _ = std::fs::remove_dir_all(&db);
+                results.lock().unwrap().push((i, differ, diffs, cov, o1.steps + o2.steps));
+            });
+        }
+    });
+    for (i, differ, diffs, cov, steps) in results.into_inner().unwrap() {
+        b.sequences += 2;
+        b.ops += steps as u64;
+        b.cov.merge(&cov);
+        b.distinct.insert(fnv(&jobs[i].0.text()));
+        if b.samples.is_empty() {
+            b.samples.push(jobs[i].1.text().chars().take(1500).collect());
+        }
+        if let Some(d) = differ {
+            if b.failures.len() < 3 {
+                let dd = vec![Diff { idx: 0, facet: "determ", op: "compare the files of run A (this process) and run B (child process, read-only calls spliced in)".into(), got: d.clone(), want: "byte-identical files".into() }];
+                let mut both = jobs[i].1.clone();
+                both.ops.insert(0, Op::Len);
+                let path = write_replay(ctx, &jobs[i].1, "determ", &dd, "(run the update ops alone in one process and this whole sequence in another; compare the files)");
+                b.failures.push(Failure { facet: "determ".into(), replay: path, detail: d });
+            }
+        } else if let Some(d) = diffs.iter().find(|d| ["bytes", "api", "oracle"].contains(&d.facet)) {
+            if b.failures.len() < 3 {
+                let path = write_replay(ctx, &jobs[i].1, d.facet, &[d.clone()], "");
+                b.failures.push(Failure { facet: d.facet.to_string(), replay: path, detail: format!("{} | observed: {} | expected: {}", d.op, d.got, d.want) });
+            }
+        }
+    }
+    finish(ctx, "determ", &b, vec![])
 }
